@@ -1350,4 +1350,73 @@ class GenC09(FileGen):
         return ops
 
 
-SCENARIOS = {"C01": GenC01, "C02": GenC02, "C07": GenC07, "C09": GenC09, "C04": GenC04, "C05": GenC05, "C03": GenC03, "C06": GenC06, "C16": GenC16, "C14": GenC14, "C12": GenC12, "C08": GenC08, "C13": GenC13, "C15": GenC15}
+class GenC13F(GridMixin, FileGen):
+    """C13 with its file clause: 'a rate change survives a write' - rated copies (also of charts generated on the
+    beat grid, so that StepMania and BMS can write them) go through write_file and the reference parse of the bytes
+    must denote the RATED timeline, osu preview/sample events and StepMania offset / sample window included."""
+
+    write_games = ("osu", "qua", "sm", "bms")
+    read_games = ()
+    table = dict(map_new=8, mapset_new=3, grid_src=8, map_edit_list=3, stack=2, stack_assign=2, stack_loc=2, rate=16,
+                 mutate_result=5, map_deepcopy=1, mapset_get_map=1, write_rated=12)
+    max_handles = 10
+
+    def p_grid_src(self):
+        g = self.r.choice(["sm", "sm", "bms", "osu", "qua"])
+        return self.grid_source(g, t0=0.0 if g == "bms" else self.d.choice([0.0, 100.0, 1234.5]), exact=True if g == "bms" else None,
+                                lcm_cap=384)
+
+    def p_write_rated(self):
+        from .ops.files import IO
+
+        hs = [h for h in self.w.h.values() if h.meta.get("copy_of") == "rate" and h.game in self.write_games and h.kind == IO[h.game].kind]
+        if not hs:
+            return None
+        h = self.r.choice(hs)
+        op = self.io_write_op(h.game, h.name, self.new_path(h.game), first=True)
+        op["prop"] = "C13"
+        if h.game == "bms":
+            op["layout"] = "PMS_BME"
+        return op
+
+
+class GenC15G(GridMixin, GenC15):
+    """adds twins built on the beat grid, so that the StepMania and BMS writers are inside their domains"""
+
+    def p_twin(self):
+        if self.r.random() < 0.75 or not self.s.knobs.get("writes", True):
+            return super().p_twin()
+        from .gen_files import gen_timeline
+
+        game = self.r.choice(["sm", "bms"])
+        nm = self.d.randint(1, 4)
+        exact = True if game == "bms" else self.d.random() < 0.6
+        t0 = 0.0 if game == "bms" else self.d.choice([0.0, 100.0, -250.0])
+        tl = gen_timeline(self.d, nm, exact, t0, nb=self.d.choice([2, 3, 4]))
+        charts = []
+        n_charts = 1 if game == "bms" else self.d.choice([1, 2])
+        for _ in range(n_charts):
+            keys = self.d.choice([4, 7, 6, 8, 3]) if game == "sm" else self.d.choice([4, 7, 8])
+            lists = self.grid_chart(game, keys, tl, nm, exact, lcm_cap=384)
+            for k in lists:
+                lists[k] = sorted(lists[k], key=lambda x: x["offset"])
+            if game == "bms":
+                for k in ("hits", "holds"):
+                    for row in lists[k]:
+                        row["sample"] = self.d.choice([b"a.wav", b"kick.ogg", b""])
+                meta = dict(title=b"t", artist=b"a", version=b"1", samples_dict={b"02": b"a.wav", b"03": b"kick.ogg"}, ln_end_channel=b"ZY")
+            else:
+                meta = gen_map_meta(self.d, "sm", keys)
+            plans = {k: self._plan(len(v)) for k, v in lists.items() if len(v) > 1}
+            charts.append(dict(lists=lists, meta=meta, plans=plans))
+        op = self.mk("twin.compare", game=game, charts=charts, f="write:" + game, args={})
+        if game == "sm":
+            sm = gen_set_meta(self.d, "sm")
+            sm["offset"] = float(tl[0][2])
+            op["set_meta"] = sm
+        else:
+            op["args"] = dict(layout="PMS_BME")
+        return op
+
+
+SCENARIOS = {"C01": GenC01, "C02": GenC02, "C07": GenC07, "C09": GenC09, "C13": GenC13F, "C04": GenC04, "C05": GenC05, "C03": GenC03, "C06": GenC06, "C16": GenC16, "C14": GenC14, "C12": GenC12, "C08": GenC08, "C15": GenC15G}
